@@ -573,6 +573,14 @@ def r13_lexicon_lookups_by_id_and_version(ctx, res):
         raise AnalysisError(f'only {n} lexicon look-ups by id found in wn/_add.py')
 
 
+def r14_importer_does_not_touch_its_input(ctx, res):
+    """add_lexical_resource(res) twice - with a remove() in between - must store the same thing: the importer never modifies
+    the in-memory resource it is given (a list of the caller stored in a record and extended later grows the caller's data,
+    and the second add writes the grown version).  Typed alias analysis of C07-R3 over wn/_add.py."""
+    from .c07 import r3_input_not_modified
+    r3_input_not_modified(ctx, res, scope=('_add',), floor=20)
+
+
 RULES = [
     ('C05-R1', r1_cascade_closure, 40),
     ('C05-R2', r2_fk_enforcement, 3),
@@ -587,4 +595,5 @@ RULES = [
     ('C05-R11', r11_no_replacing_inserts, 25),
     ('C05-R12', r12_ownerless_children_on_own_parents, 4),
     ('C05-R13', r13_lexicon_lookups_by_id_and_version, 2),
+    ('C05-R14', r14_importer_does_not_touch_its_input, 20),
 ]
